@@ -72,7 +72,7 @@ func ZZ_C17_MatrixInverse() {
 	// bottom row (0,0,0,1): the affine matrices the library builds; keeps the NRA queries small
 	a.X30, a.X31, a.X32, a.X33 = 0, 0, 0, 1
 	d := a.Determinant()
-	zz.Assume(d > 0.001 || d < -0.001)
+	zz.Assume(d > 0 || d < 0) // every invertible matrix, however small its determinant
 	zz.Reach("input")
 	inv := a.Inverse()
 	l, r := entries(a.Multiply(inv)), entries(inv.Multiply(a))
@@ -260,4 +260,19 @@ func ZZ_C17_QuatHomogeneous() {
 	zz.AssertNear(a.X(), k*k*b.X(), "Rotate(k q, v) = k^2 Rotate(q, v) (x)")
 	zz.AssertNear(a.Y(), k*k*b.Y(), "Rotate(k q, v) = k^2 Rotate(q, v) (y)")
 	zz.AssertNear(a.Z(), k*k*b.Z(), "Rotate(k q, v) = k^2 Rotate(q, v) (z)")
+}
+
+// anti-parallel special case: RotationTo(a, -a) is a half turn that maps a onto -a (a from the concrete list
+// plus oblique directions; everything is concrete, the point is to execute the library's own branch)
+func ZZ_C17_RotationToOpposed() {
+	dirs := append([]vector3.Float64{}, unitDirs...)
+	dirs = append(dirs, vector3.New(1., 2., 3.).Normalized(), vector3.New(-2., 1., 0.5).Normalized(), vector3.New(0.3, -0.4, 0.5).Normalized())
+	from := dirs[zz.Choose("dir", len(dirs))]
+	to := vector3.New(-from.X(), -from.Y(), -from.Z())
+	zz.Reach("input")
+	q := quaternion.RotationTo(from, to)
+	g := q.Rotate(from)
+	near := func(a, b float64) bool { return a-b <= 1e-9 && b-a <= 1e-9 }
+	zz.Assert(near(g.X(), to.X()) && near(g.Y(), to.Y()) && near(g.Z(), to.Z()), "RotationTo(a,-a) maps a onto -a")
+	zz.Assert(near(qnorm2(q), 1), "RotationTo(a,-a) is a unit quaternion")
 }
